@@ -251,6 +251,18 @@ func c13Body(c *mc.Ctx, media, scheme string, maxN int) {
 	for _, got := range []*signature.EnvelopeContent{vc, cc} {
 		c13Compare(c, media, cont, got)
 	}
+	// The library builds the attribute list by iterating over a Go map, whose order differs from call to call. The envelope is
+	// therefore parsed and read several more times within this one execution, so that a behaviour that depends on that order shows
+	// (nearly) every time the execution is run; each reading is judged like the first.
+	if len(cont.Ext) >= 2 && len(c.Fails) == 0 {
+		for rep := 0; rep < 10 && len(c.Fails) == 0; rep++ {
+			if again, perr, verr, pan := parseVerify(media, env); perr == nil && verr == nil && pan == nil {
+				c13Compare(c, media, cont, again)
+			} else {
+				c.Fail(fmt.Sprintf("C13 %s repeated verification of the same bytes fails", mediaShort(media)), "%v %v %v", perr, verr, pan)
+			}
+		}
+	}
 }
 
 func c13Compare(c *mc.Ctx, media string, cont envenc.Content, got *signature.EnvelopeContent) {
@@ -262,10 +274,7 @@ func c13Compare(c *mc.Ctx, media string, cont envenc.Content, got *signature.Env
 		if err != nil {
 			return fmt.Sprintf("%T:%v|%v|unencodable(%v)", key, key, crit, err)
 		}
-		k := key
-		if i, ok := key.(int); ok {
-			k = int64(i)
-		}
+		k := normKey(key)
 		return fmt.Sprintf("%T:%v|%v|%x", k, k, crit, []byte(cb))
 	}
 	var g, w []string
